@@ -280,17 +280,22 @@ def run_scenario(scn, validity=None, goal_fault=None, log=None, goal_ref=None):
         return cb
 
     out = []
+    callbacks = {}
     for c in scn["calls"]:
         op = c["op"]
         try:
             if op == "Setup":
-                # every setup installs a NEW callback object, bound to the world of the problem
-                # the call names (the problem definition itself is fixed at construction)
+                # the callback is bound to the world of the problem the call names (the problem
+                # definition itself is fixed at construction). A user who keeps his callback
+                # around passes the IDENTICAL callable to every setup with that world; scenarios
+                # with the parameter `fresh_objects` build a new callable on every setup.
+                wi = scn["problems"][c.get("problem", 0)]["world"]
                 world = world_of(c.get("problem", 0))
                 if log is not None:
                     del log[:]
-                cb = validity(world, log) if validity is not None else default_validity(world)
-                planner.setup(cb)
+                if scn["params"].get("fresh_objects") or wi not in callbacks:
+                    callbacks[wi] = validity(world, log) if validity is not None else default_validity(world)
+                planner.setup(callbacks[wi])
                 out.append({"res": "ok"})
             elif op == "Construct":
                 planner.construct_roadmap()
